@@ -389,7 +389,17 @@ func (c *certificateV2) fromTBSCertificate(t *TBSCertificate) error {
 }
 
 func (c *certificateV2) validate() error {
-	// Empty names are allowed
+	// The v2 wire format can not carry an empty name, a name longer than MaxNameLength or an empty group,
+	// unmarshalDetails refuses them. Refuse them here as well so we never sign a certificate we can not read back.
+	if c.details.name == "" || len(c.details.name) > MaxNameLength {
+		return NewErrInvalidCertificateProperties("name must be between 1 and %d bytes long", MaxNameLength)
+	}
+
+	for _, g := range c.details.groups {
+		if g == "" {
+			return NewErrInvalidCertificateProperties("groups may not contain an empty string")
+		}
+	}
 
 	if len(c.publicKey) == 0 {
 		return ErrInvalidPublicKey
